@@ -158,8 +158,18 @@ class RungeKuttaIntegrator(TableauIntegrator, abc.ABC):
             self.__jac_eye = None
             self.__rhs_jac = None
         self.solver_dict_keep_keys = set(solver_dict_preserved.keys())
+        self.__unfinished_call = False
 
     def __call__(self, rhs, initial_time, initial_state, constants, timestep):
+        if self.__unfinished_call:
+            # The previous call was interrupted (the right-hand side or the solver raised, tolerances could not be met):
+            # its half-solved stage values, which seed the predictor, the quasi-Newton Jacobian updated from them and
+            # the extended-precision flag must not leak into this call
+            self.stage_values = D.ar_numpy.zeros_like(self.stage_values)
+            if not self._explicit:
+                self.__rhs_jac = None
+            self._requires_high_precision = False
+        self.__unfinished_call = True
         self.solver_dict = {k:v for k,v in self.solver_dict.items() if k in self.solver_dict_keep_keys}
         self.initial_state = D.ar_numpy.copy(initial_state)
         self.initial_time = D.ar_numpy.copy(initial_time)
@@ -232,6 +242,7 @@ class RungeKuttaIntegrator(TableauIntegrator, abc.ABC):
                     )
         
         self._requires_high_precision = False
+        self.__unfinished_call = False
         
         return timestep, (self.dTime, self.dState)
         
